@@ -29,7 +29,8 @@ func findMatches(insts []bytecode.SearchInstruction, all bool, skip int, take in
 	lineNumber := 1
 	columnNumber := 1
 
-	if reader.Size() == 0 {
+	if reader.Size() == 0 || len(insts) == 0 {
+		// nothing to search, or an empty pattern: there can be no non-empty match
 		return Matches{}
 	}
 
